@@ -390,6 +390,42 @@ def run(prog, rep):
                 rep.violation('R4', loc(smod, sc), fq, norm(sc, 110),
                               f'the lookup for an already stored graph with this id searches {tgt} instead of the store: a '
                               f're-import under an occupied id does not replace the old graph, node ids and edges are duplicated')
+    # an already stored graph of that id is removed whenever the lookup finds any node of it (shared store, both insert flavours)
+    st_sh = nxg.storage_class(prog, nxg.SHARED_SHELL)
+    for mname in ('add_graph', 'add_graph_direct'):
+        fn_ = nxg.method(prog, st_sh, st_sh.methods.get(mname))
+        fq_ = f'{st_sh.name}.{mname}'
+        lookups = set()
+        for n in walk_no_nested(fn_):
+            if isinstance(n, ast.Assign) and isinstance(n.targets[0], ast.Name) and any(isinstance(c, ast.Call) and call_name(c) == 'search_nodes' for c in ast.walk(n.value)):
+                lookups.add(n.targets[0].id)
+        removals = [c for c in walk_no_nested(fn_) if isinstance(c, ast.Call) and call_name(c) in ('remove_nodes_from',)]
+        if not removals:
+            rep.violation('R4', loc(st_sh.module, fn_), fq_, 'an existing graph of the same id is not removed',
+                          'importing under an occupied id must replace the stored graph; without the removal node ids and edges are duplicated')
+            continue
+        for c in removals:
+            _, conds_ = _enclosing(c, fn_)
+            lenv_ = {k: v for k, v in local_env(fn_).items() if k not in lookups}
+            cjs = [cj for c_ in conds_ for cj in conjuncts(canon(expand(c_, lenv_)))]
+            odd = []
+
+            def is_lookup(e):
+                if isinstance(e, ast.Name):
+                    return e.id in lookups
+                while isinstance(e, ast.Call) and isinstance(e.func, ast.Name) and e.func.id in ('list', 'set', 'tuple') and len(e.args) == 1:
+                    e = e.args[0]
+                return isinstance(e, ast.Call) and call_name(e) == 'search_nodes'
+            for cj in cjs:
+                okc = is_lookup(cj) or (isinstance(cj, ast.Compare) and isinstance(cj.ops[0], ast.IsNot) and is_lookup(cj.left))
+                if not okc:
+                    odd.append(cj)
+            rep.instance('R4', f'{fq_}: stored graph removed under {[norm(x, 40) for x in cjs]}')
+            if odd:
+                rep.violation('R4', loc(st_sh.module, c), fq_, f'existing graph removed only when {[norm(x, 50) for x in odd]}',
+                              f'the stored graph of the same id is removed only under {[norm(x, 50) for x in odd]}, not whenever the lookup finds '
+                              f'nodes of it: an existing graph that does not satisfy the extra condition (e.g. a one-node graph) is not '
+                              f'replaced and its nodes are duplicated by the re-import')
     ste = nxg.storage_class(prog, nxg.SHARED_SHELL)
     eg = nxg.method(prog, ste, ste.methods.get('extract_graph'))
     etxt = ast.unparse(eg)
